@@ -75,53 +75,46 @@ theorem lookup_head (p : Name) (b : Block β) (hwf : b.WF p) (k : Name) (v : Val
 /-- names of the material properties, array variables expanded -/
 theorem read_names_mps (p : Name) (b : Block β) (hwf : b.WF p) :
     readNames (emit p b) p "MaterialProperties" = some (expandNames b.mps) := by
-  have h1 := lookup_head p b hwf _ _ (mem_head_slots p b (catSym p "nMaterialProperties") _ (by simp))
+  have h1 := lookup_head p b hwf _ _ (mem_head_slots p b (catSym p "nMaterialProperties") (.num (totalSize b.mps)) (by simp))
   have h2 := lookup_head p b hwf _ _ (mem_head_slots p b (catSym p "MaterialProperties") (.strs (expandNames b.mps)) (by simp))
   have hs : ∀ v ∈ b.mps, 0 < v.size := fun v hv => hwf.sizes v (by simp [allVars, hv])
-  have : catSym p ("n" ++ "MaterialProperties") = catSym p "nMaterialProperties" := rfl
-  simp [readNames, getNum, getStrs, this, h1, h2, ← expandNames_length b.mps hs]
+  simp [readNames, getNum, getStrs, h1, h2, ← expandNames_length b.mps hs]
 
 /-- names and types of the internal state variables -/
 theorem read_names_isvs (p : Name) (b : Block β) (hwf : b.WF p) :
     readNames (emit p b) p "InternalStateVariables" = some (expandNames b.isvs) ∧
     readTypes (emit p b) p "InternalStateVariables" = some (expandTypes b.isvs) := by
-  have h1 := lookup_head p b hwf _ _ (mem_head_slots p b (catSym p "nInternalStateVariables") _ (by simp))
+  have h1 := lookup_head p b hwf _ _ (mem_head_slots p b (catSym p "nInternalStateVariables") (.num (totalSize b.isvs)) (by simp))
   have h2 := lookup_head p b hwf _ _ (mem_head_slots p b (catSym p "InternalStateVariables") (.strs (expandNames b.isvs)) (by simp))
   have h3 := lookup_head p b hwf _ _ (mem_head_slots p b (catSym p "InternalStateVariablesTypes") (.ints (expandTypes b.isvs)) (by simp))
   have hs : ∀ v ∈ b.isvs, 0 < v.size := fun v hv => hwf.sizes v (by simp [allVars, hv])
-  have e1 : catSym p ("n" ++ "InternalStateVariables") = catSym p "nInternalStateVariables" := rfl
-  have e2 : catSym p ("InternalStateVariables" ++ "Types") = catSym p "InternalStateVariablesTypes" := rfl
   constructor
-  · simp [readNames, getNum, getStrs, e1, h1, h2, ← expandNames_length b.isvs hs]
-  · simp [readTypes, getNum, getInts, e1, e2, h1, h3, ← expandTypes_length b.isvs]
+  · simp [readNames, getNum, getStrs, h1, h2, ← expandNames_length b.isvs hs]
+  · simp [readTypes, getNum, getInts, h1, h3, ← expandTypes_length b.isvs]
 
 /-- names and types of the external state variables -/
 theorem read_names_esvs (p : Name) (b : Block β) (hwf : b.WF p) :
     readNames (emit p b) p "ExternalStateVariables" = some (expandNames b.esvs) ∧
     readTypes (emit p b) p "ExternalStateVariables" = some (expandTypes b.esvs) := by
-  have h1 := lookup_head p b hwf _ _ (mem_head_slots p b (catSym p "nExternalStateVariables") _ (by simp))
+  have h1 := lookup_head p b hwf _ _ (mem_head_slots p b (catSym p "nExternalStateVariables") (.num (totalSize b.esvs)) (by simp))
   have h2 := lookup_head p b hwf _ _ (mem_head_slots p b (catSym p "ExternalStateVariables") (.strs (expandNames b.esvs)) (by simp))
   have h3 := lookup_head p b hwf _ _ (mem_head_slots p b (catSym p "ExternalStateVariablesTypes") (.ints (expandTypes b.esvs)) (by simp))
   have hs : ∀ v ∈ b.esvs, 0 < v.size := fun v hv => hwf.sizes v (by simp [allVars, hv])
-  have e1 : catSym p ("n" ++ "ExternalStateVariables") = catSym p "nExternalStateVariables" := rfl
-  have e2 : catSym p ("ExternalStateVariables" ++ "Types") = catSym p "ExternalStateVariablesTypes" := rfl
   constructor
-  · simp [readNames, getNum, getStrs, e1, h1, h2, ← expandNames_length b.esvs hs]
-  · simp [readTypes, getNum, getInts, e1, e2, h1, h3, ← expandTypes_length b.esvs]
+  · simp [readNames, getNum, getStrs, h1, h2, ← expandNames_length b.esvs hs]
+  · simp [readTypes, getNum, getInts, h1, h3, ← expandTypes_length b.esvs]
 
 /-- names and types of the parameters -/
 theorem read_names_pars (p : Name) (b : Block β) (hwf : b.WF p) :
     readNames (emit p b) p "Parameters" = some (expandNames (pvars b)) ∧
     readTypes (emit p b) p "Parameters" = some (expandTypes (pvars b)) := by
-  have h1 := lookup_head p b hwf _ _ (mem_head_slots p b (catSym p "nParameters") _ (by simp))
+  have h1 := lookup_head p b hwf _ _ (mem_head_slots p b (catSym p "nParameters") (.num (totalSize (pvars b))) (by simp))
   have h2 := lookup_head p b hwf _ _ (mem_head_slots p b (catSym p "Parameters") (.strs (expandNames (pvars b))) (by simp))
   have h3 := lookup_head p b hwf _ _ (mem_head_slots p b (catSym p "ParametersTypes") (.ints (expandTypes (pvars b))) (by simp))
   have hs : ∀ v ∈ pvars b, 0 < v.size := fun v hv => hwf.sizes v (by simp [allVars, hv])
-  have e1 : catSym p ("n" ++ "Parameters") = catSym p "nParameters" := rfl
-  have e2 : catSym p ("Parameters" ++ "Types") = catSym p "ParametersTypes" := rfl
   constructor
-  · simp [readNames, getNum, getStrs, e1, h1, h2, ← expandNames_length (pvars b) hs]
-  · simp [readTypes, getNum, getInts, e1, e2, h1, h3, ← expandTypes_length (pvars b)]
+  · simp [readNames, getNum, getStrs, h1, h2, ← expandNames_length (pvars b) hs]
+  · simp [readTypes, getNum, getInts, h1, h3, ← expandTypes_length (pvars b)]
 
 end arrays
 
@@ -172,7 +165,7 @@ theorem read_default (p : Name) (b : Block β) (hwf : b.WF p) (q : ParD β) (hq 
     readValue (emit p b) p (listedName q.var.ext e) "ParameterDefaultValue" = q.dflt[e.getD 0]? := by
   have hv : q.var ∈ allVars b := by
     simp only [allVars, pvars, List.mem_append, List.mem_map]
-    exact Or.inr ⟨q, hq, rfl⟩
+    exact Or.inl (Or.inr ⟨q, hq, rfl⟩)
   have hnb := hwf.noBracket q.var hv
   unfold readValue
   rw [name_scheme p q.var.ext e _ hnb]
